@@ -396,6 +396,30 @@ def r5(rep, fx):
     rep.add('C01.R5', 'C01.R5:InitLocal:appends-only-new-slot', ok_grow,
             'a slot is appended only on the side of the i-vs-len test where slot i does not exist' if ok_grow else
             'the InitLocal arm appends a slot without testing the slot index against locals.len()', far.name, far.at(tgt))
+    # the appended slot must BE slot i: slots are numbered at compile time, and a `local` in a branch that was not taken (or in a
+    # zero-trip loop) leaves a gap.  Either the append happens only for i == len, or the gap is filled first (a push inside a
+    # loop that runs while len < i)
+    from ..pathq import natural_loops
+    exact = False
+    for w in grow:
+        for (op, a, b) in guard_facts(far, w['bb']):
+            txt = expr_str(zstrip(a), -20) + expr_str(zstrip(b), -20)
+            if op == 'Eq' and 'InitLocal' in txt and 'locals' in txt:
+                exact = True
+    pads = False
+    for h, body, tail in natural_loops(far):
+        if not (body & region):
+            continue
+        if any(w['bb'] in body for w in grow):
+            for b2 in body:
+                for (op, a, b) in guard_facts(far, b2):
+                    txt = expr_str(zstrip(a), -20) + expr_str(zstrip(b), -20)
+                    if op in ('Lt', 'Gt', 'Le', 'Ge', 'Ne') and 'InitLocal' in txt and 'locals' in txt:
+                        pads = True
+    rep.add('C01.R5', 'C01.R5:InitLocal:appended-slot-is-slot-i', exact or pads,
+            'the gap left by skipped `local`s is filled before the append / the append happens only for i == len' if exact or pads else
+            'for i > locals.len() the value is appended at index len, not i: after a `local` in a branch that was not taken, later locals '
+            'land one slot early (`: f if 1 local a then 2 local b b ; false f` reports an index error)', far.name, far.at(tgt))
 
     # (b) variable definitions
     ALLOC = 'state::State::alloc_heap'
